@@ -1075,11 +1075,12 @@ pub fn run_serve(rep: &mut Report, tier: &str)
 {
     let bin = match build_real_binary() { Ok(b) => b, Err(e) => { rep.machinery(e); return; } };
     let thorough = tier == "thorough";
-    let cap = if thorough { 80 } else { 16 };
+    let cap = if thorough { 100 } else { 20 };
     let mut dirs: Vec<(String, Vec<Op>, Fs)> = vec![];
-    for sc in [crate::scen::s1_chain(), crate::scen::s3_multi(), crate::scen::s13_binary(), crate::scen::s18_empty()]
+    // S13: non-UTF-8 entries; S18: zero-byte entries; S16: entries of 4 KiB - 79 KiB (longer than any one read or write)
+    for sc in [crate::scen::s1_chain(), crate::scen::s3_multi(), crate::scen::s13_binary(), crate::scen::s18_empty(), crate::scen::s16_big()]
     {
-        for (p, fs) in ruler_dirs(&sc, if thorough { 5 } else { 4 }, cap / 4)
+        for (p, fs) in ruler_dirs(&sc, if thorough { 5 } else { 4 }, cap / 5)
         {
             dirs.push((sc.name.clone(), p, fs));
         }
